@@ -214,7 +214,8 @@ def run(R, tier):
 
     # ---- R10.8 a list answers as its elements joined by `,` - none leading, trailing, doubled or missing -------------------
     # Emission tables (sa/rules/emit.py) of the list writers on lists of 1, 2, 3 and 5 opaque elements: what reaches the
-    # Formatter must be el0 , el1 , ... in order. (The empty list is C09's business.)
+    # Formatter must be el0 , el1 , ... in order. An empty list must be refused: a datum that writes nothing would leave the
+    # `,` that ResponseUnit::data has already written doubled or leading (`1,,0` - seed C10-O).
     em = E.engine()
     n_l = 0
     for unit in P.units:
@@ -222,8 +223,8 @@ def run(R, tier):
             s = b.impl_self or ""
             if b.name == "format_response_data" and "ResponseData" in (b.impl_trait or "") and s.startswith(("alloc::vec::Vec<", "arrayvec::ArrayVec<")):
                 n_l += 1
-                bad = E.check_cases(em, b, E.list_cases((1, 2, 3, 5)))
-                R.check(not bad, "R10.8", "list:%s" % s.split("<")[0].split("::")[-1], "elements in order, one `,` between neighbours and nowhere else", "; ".join(bad[:3]), where=b.span)
+                bad = E.check_cases(em, b, E.list_cases((0, 1, 2, 3, 5)))
+                R.check(not bad, "R10.8", "list:%s" % s.split("<")[0].split("::")[-1], "elements in order, one `,` between neighbours and nowhere else; an empty list is refused instead of writing an empty datum", "; ".join(bad[:3]), where=b.span)
     R.floor("R10.8", "list writers", n_l, 2)
 
     # ---- R10.9 an error-queue item is two data elements: code `,` quoted text - on every arm of its writer ---------------------
